@@ -65,6 +65,12 @@ CLAIMS = {
     "C36": ("proof", "FFI pointer discipline over every extern \"C\" function (enumerated by ABI): classification of all uses of raw-pointer parameters, edge-dominance of direct dereferences by is_null()==false, who-may-call Box::from_raw/into_raw, who-may-dereference stored raw pointers",
             "Proves that raw pointer parameters of the 168 extern functions are used only through null-tolerant conversions, reviewed callees, inventoried from_raw_parts, or dereferences guarded by a null test of the same parameter; that owning pointers have exactly one release path (AMresultFree, null-guarded) and two creation sites; and that stored raw pointers are dereferenced only in a reviewed accessor set.",
             "Thin: decides pointer discipline, not lifetime validity of stored pointers, leak-freedom, or agreement with the Rust API. Six out-parameter writes in AMsyncStateTheir{Haves,Heads,Needs} lack the null test the rest of the crate uses; the header documents `has_value != NULL`, so they are reviewed exceptions (tables/r14_deref.tsv), not findings.", "DESIGN.md §3 C36"),
+    "C06": ("other", "error-after-mutation analysis: bottom-up may-mutate / may-fail summaries over MIR, CFG reachability from mutation points to Err exits, automatic discharge by may-fail and pre-validation twins, reviewed table for infeasible pairs, known-findings file for confirmed leftovers",
+            "Enumerates every (mutation, later error return) pair in the apply path (apply_changes*, load_incremental*, merge*, sync receive, BatchApply) and in the transaction operations, and requires each to be discharged automatically, reviewed as infeasible (tables/eam.tsv, one reason per row) or listed as a known finding; also proves that the fallible patch-log migration precedes every mutation in the admission function.",
+            "Level 'other': soundness of the reviewed rows rests on the stated reasons. A new error exit after a mutation is reported until reviewed (that is the price of the rule). Fired on the pinned tree: PatchLogMismatch after actors were inserted and changes popped (fix: 93cdd6d98); mark() failing after inserting its begin op (fix: f1cd5c1c9); a rejected duplicate-seq change prunes the pending queue (known finding, not repaired).", "DESIGN.md §3 C06"),
+    "C03": ("other", "the error-after-mutation analysis of C06 restricted to the editing calls C03 lists, plus agreement of the op set's Action->ObjType table with the make-actions the encoder writes",
+            "For put, put_object, insert, insert_object, delete, increment, splice, splice_text, mark, unmark, split_block, join_block: every (mutation, later error) pair in the functions they reach is discharged, reviewed or a known finding; and every object kind put_object can create is one the op set registers.",
+            "Decides only the last sentence of C03 (an invalid call changes nothing) and the object-registration clause; the sequential effect itself is runtime-valued. Known finding: ObjType::Table objects are never registered (put_object returns an unusable id).", "DESIGN.md §3 C03"),
 }
 
 NA_PLANNED = "rule designed in DESIGN.md §3 but its checker is not built in this revision, so nothing is claimed yet"
